@@ -270,6 +270,30 @@ pub fn gen_sm(rng: &mut Rng, k: &Knobs) -> Value {
            "stimuli": stimuli})
 }
 
+/// Crash injection (C08): the process may die at any instant; what survives is the storage as of the last completed
+/// commit.  For every distinct committed view the run of `input` produced, a follow-up case rebuilds the state machine
+/// on exactly that view (no further stimuli: it shows its policy what it loaded and goes to sleep).  The values it
+/// presents are compared with the model's load of the same bytes, and C08's monitor starts from them.
+pub fn crash_cases(input: &Value, max: usize) -> Vec<Value> {
+    let r = sm::run_sm(input);
+    if r.panic.is_some() || r.hang { return vec![]; }
+    let n = r.snaps.len();
+    let mut out = vec![];
+    for (i, snap) in r.snaps.iter().enumerate() {
+        // keep the first, the last and an even spread of the others
+        if n > max && i != 0 && i != n - 1 && (i * max / n) == ((i - 1) * max / n) { continue; }
+        let mut c = input.clone();
+        c["storage"] = sm::storage_json(snap);
+        c["stimuli"] = json!([]);
+        c["inject"] = json!([]);
+        c["faults"] = json!([]);
+        c["entry"] = json!("start");
+        c["crash_after_commit"] = json!(i + 1);
+        out.push(c);
+    }
+    out
+}
+
 pub fn run_input(input: &Value) -> Case {
     let r = sm::run_sm(input);
     let mut out = input.clone();
@@ -296,6 +320,7 @@ pub fn trace_features(input: &Value, t: &[String]) -> Vec<String> {
     let mut after_result = false;
     f.insert(if input["entry"] == "oneshot" { "entry:oneshot".into() } else { "entry:start".into() });
     f.insert(if input["cup"].is_null() { "cup:off".into() } else { "cup:on".into() });
+    if !input["crash_after_commit"].is_null() { f.insert("rebuilt-after-crash".into()); }
     for l in t {
         if let Some(s) = l.strip_prefix("state ") {
             let name = s.split('(').next().unwrap_or(s);
